@@ -50,6 +50,12 @@ class HistoryRunner:
         nv = config["hardware"] == "nv"
         hw = NVHardwareConfig(budget) if nv else GenericHardwareConfig(budget)
         kw: Dict[str, Any] = {"max_qubits": budget, "hardware_config": hw}
+        # with the NV transpiler as compiler the connection is an NV one whatever hardware config is (or is not) passed along
+        given = config.get("hardware_given", "nv")
+        if config["compiler"] == "nv" and given == "generic":
+            kw["hardware_config"] = GenericHardwareConfig(budget)
+        elif config["compiler"] == "nv" and given == "default":
+            del kw["hardware_config"]
         flavour = None
         if config["compiler"] == "nv":
             kw["compiler"] = NVSubroutineTranspiler
@@ -230,9 +236,11 @@ def make_machine(ctx: Ctx, stt):
 
         @initialize(budget=st.integers(1, 5), hardware=st.sampled_from(["generic", "nv"]), compiler=st.sampled_from(["none", "none", "nv"]), delivery=st.sampled_from(["lazy", "eager"]))
         def setup(self, budget, hardware, compiler, delivery):
+            cfg = {"budget": budget, "hardware": hardware, "compiler": compiler, "delivery": delivery}
             if compiler == "nv":
-                hardware = "nv"
-            self.r = HistoryRunner({"budget": budget, "hardware": hardware, "compiler": compiler, "delivery": delivery})
+                cfg["hardware_given"] = {"generic": "generic", "nv": "nv"}[hardware] if budget % 2 else ("default" if hardware == "generic" else "nv")
+                cfg["hardware"] = "nv"
+            self.r = HistoryRunner(cfg)
 
         @precondition(lambda self: self.r is not None and self.r.room() >= 1)
         @rule()
@@ -312,7 +320,7 @@ def make_machine(ctx: Ctx, stt):
                 info = r.info
                 nt = info["reuse"] or info["relocation"] or info["epr_with_other"]
                 c = r.config
-                labels = [f"budget:{c['budget']}", c["hardware"], "compiler:" + c["compiler"], "delivery:" + c.get("delivery", "lazy")] + [k for k in ("reuse", "relocation", "epr_with_other") if info[k]]
+                labels = [f"budget:{c['budget']}", c["hardware"], "compiler:" + c["compiler"]] + (["nv-by-compiler-only:" + c["hardware_given"]] if c.get("hardware_given", "nv") != "nv" else []) + [ "delivery:" + c.get("delivery", "lazy")] + [k for k in ("reuse", "relocation", "epr_with_other") if info[k]]
                 labels += sorted({"op:" + op[0] for op in r.history})
                 stt.case(r.case(), nt, labels, sample=r.case() if len(r.history) <= 12 else None)
 
